@@ -228,8 +228,10 @@ def run_check(module, tier, seed, jobs, deadline_s):
                           if s.name in capped) != total:
             raise InternalError('case count mismatch')
 
-    if agg['nontrivial'] < getattr(module, 'MIN_NONTRIVIAL', 2) \
-            and not agg['viol'] and not capped:
+    floor = max(getattr(module, 'MIN_NONTRIVIAL', 2),
+                int(getattr(module, 'MIN_NONTRIVIAL_FRACTION', 0.0)
+                    * agg['n']))
+    if agg['nontrivial'] < floor and not agg['viol'] and not capped:
         raise InternalError(
             'vacuous exploration: only %d of %d cases were non-trivial '
             '(rule: see RULE); the check cannot conclude anything'
